@@ -23,7 +23,7 @@ def run(tier, seed):
     k = 0
     for c in cases:
         # endpoints with few cases but several concretisations per outcome (list path parameter, regex path): every variant
-        for _ in range(reps * (6 if c["endpoint"] in ("Ids", "Regex") else 1)):
+        for _ in range(reps * (6 if c["endpoint"] in ("Ids", "Regex", "Path") else 1)):
             client, server = ep.flavours(c["endpoint"], k)
             doc, args, injected = ep.build_case("c%d" % k, c, seed * 131 + k, client, server)
             docs.append(json.dumps(doc))
